@@ -27,7 +27,7 @@ RULE = ("sampler {importance, minipcn, emcee, smc, emcee_smc, blackjax_smc} x pr
         "top-level sample_posterior(rng=), flow seed/key only} x seeds {0,1,VERIF_SEED}; each configuration is executed twice "
         "from scratch with numpy/python/torch global generators re-seeded differently and numpy.random.default_rng / the default "
         "orng.ArrayRNG patched to return differently seeded generators in the two runs (and logging their callers); a subset is "
-        "repeated in a fresh interpreter with a different PYTHONHASHSEED; plus pairs of runs that are handed the very same argument objects (a reused sampler_kwargs dictionary); plus the sample-set operations that take a generator (Samples.rejection_sample, SMCSamples.resample) x {numpy, torch, jax} x {float32, float64} x seeds, twice with differently seeded global sources. non-trivial = run that consumes random numbers after the "
+        "repeated in a fresh interpreter with a different PYTHONHASHSEED; plus pairs of runs that are handed the very same argument objects (a reused sampler_kwargs dictionary); plus the sample-set operations that take a generator (Samples.rejection_sample, SMCSamples.resample) x {numpy, torch, jax} x {float32, float64} x seeds, twice with differently seeded global sources; plus, per sampler x preconditioning, the run of a sampler object that has already completed a different run (other seed, size, options) against the run of a fresh object. non-trivial = run that consumes random numbers after the "
         "initial draw (everything except pure importance sampling with an analytic proposal)")
 ASSUMPTIONS = [
     "stub kernels draw only from the generator object they are handed (minipcn) / from their own RandomState (emcee, like the real package)",
@@ -268,6 +268,77 @@ def run_reused_arguments(cfg):
     return r.dump()
 
 
+def run_reused_sampler(cfg):
+    """The same seeds and inputs give the same run whatever the sampler object did before: a run on a sampler object that
+    has already completed another run (other seed, other size, other options) is compared with the run of a fresh object."""
+    import _kernel
+    import orng
+    from aspire import Aspire
+    from env.flows import AnalyticFlow
+    from env.targets import Monitor
+
+    sampler, seed = cfg["sampler"], cfg["seed"]
+    r = Report()
+    case = {"reused_sampler": True, "cfg": cfg}
+    r.case(explorer.digest(case), nontrivial=True)
+    p = rh.problem(cfg.get("precond", "none"))
+
+    def one(smp, a, sd, first):
+        _kernel.reset(mode="prw" if sampler in ("smc", "minipcn") else "det", scale=0.5, horizon=500, emcee_seed=sd)
+        orng.CONFIG["factory"] = None
+        orng.CONFIG["seed"] = sd
+        a.flow.gen = np.random.default_rng(sd + 1000)  # the proposal's own seeded generator is one of the explicit sources
+        g = np.random.default_rng(sd)
+        n = 6 if first else 8
+        if sampler == "smc":
+            kw = dict(adaptive=True, target_efficiency=0.5 if first else 0.8, sampler_kwargs={"n_steps": 3 if first else 2}, rng=g)
+            if not first:
+                kw["n_final_samples"] = 10
+        elif sampler == "emcee_smc":
+            smp.rng = g
+            kw = dict(adaptive=not first, sampler_kwargs={"nsteps": 2, "progress": False})
+            if first:
+                kw["n_steps"] = 2
+            else:
+                kw.update(target_efficiency=0.8, n_final_samples=10)
+        elif sampler == "minipcn":
+            kw = dict(rng=g, n_steps=2 if first else 3)
+        else:
+            kw = dict(rng=g, nsteps=2 if first else 3, nwalkers=n)
+        res = smp.sample(n, **kw)
+        h = smp.history
+        pieces = [res.x, res.log_likelihood, res.log_prior, res.log_evidence]
+        if h is not None:
+            pieces += list(h.beta) + list(h.log_norm_ratio) + list(h.ess) + [s.x for s in h.sample_history]
+        return digest_arrays(pieces), (len(h.beta) if h is not None else None)
+
+    def build():
+        mon = Monitor(p["like"], p["prior"], "numpy", keep_points=False)
+        flow = AnalyticFlow(2, seed=seed + 1000, **p["flow"])
+        a = Aspire(log_likelihood=mon.log_likelihood, log_prior=mon.log_prior, dims=2, parameters=p["parameters"],
+                   prior_bounds=p["bounds"], periodic_parameters=p["periodic"], flow=flow, xp=get_xp("numpy"))
+        smp = a.init_sampler(sampler, preconditioning=p["preconditioning"], preconditioning_kwargs=dict(p["pk"]) if p["pk"] else None)
+        a._sampler = smp
+        return a, smp
+
+    try:
+        a, smp = build()
+        fresh = one(smp, a, seed, False)
+        a, smp = build()
+        one(smp, a, seed + 17, True)
+        again = one(smp, a, seed, False)
+    except Exception as e:
+        from env import exc_site
+
+        r.violation(f"C20/{sampler}/reused-sampler/raises/{type(e).__name__}/{exc_site(e)}", repr(e)[:200], case)
+        return r.dump()
+    r.outcomes.add(fresh[0])
+    if fresh != again:
+        r.violation(f"C20/{sampler}/not-reproducible/sampler-object-used-before", {"iterations_fresh": fresh[1], "iterations_reused": again[1]}, case)
+    r.sample(case)
+    return r.dump()
+
+
 def run_sample_ops(cfg):
     """The sample-set operations that take a generator (rejection_sample, SMCSamples.resample) in every namespace:
     twice with the same seeded generator and differently seeded global sources (numpy, python, torch)."""
@@ -361,6 +432,10 @@ def run(tier, seed, workers):
         jobs.append(("run_reused_arguments", {"sampler": "smc", "seed": sd, "sampler_kwargs": {"n_steps": 2}}))
         jobs.append(("run_reused_arguments", {"sampler": "emcee_smc", "seed": sd,
                                               "sampler_kwargs": {"nsteps": 2, "progress": False, "moves": "user-moves", "n_final_steps": 4}}))
+    for sampler in ("smc", "emcee_smc", "minipcn", "emcee"):
+        for precond in ("none", "logit_affine") if tier == "quick" else ("none", "logit_affine", "periodic", "tight"):
+            for sd in sorted({0, seed}):
+                jobs.append(("run_reused_sampler", {"sampler": sampler, "seed": sd, "precond": precond}))
     for op, ns, dt in itertools.product(("rejection", "resample"), ("numpy", "torch", "jax"), ("float64", "float32")):
         for sd in sorted({0, 1, seed}):
             if tier == "quick" and sd == 1:
@@ -378,6 +453,9 @@ def run(tier, seed, workers):
 
 def replay(case):
     r = Report()
+    if case.get("reused_sampler"):
+        r.merge(run_reused_sampler(case["cfg"]))
+        return r
     if case.get("sample_ops"):
         r.merge(run_sample_ops(case["cfg"]))
         return r
